@@ -826,6 +826,7 @@ class BinaryQuadraticModel(QuadraticViewsMixin):
             if not isinstance(lagrange_multiplier, Iterable):
                 raise TypeError('A list with two lagrange_multiplier are needed'
                                 ' for the unbalanced penalization method.')
+            lagrange_multiplier[0], lagrange_multiplier[1]  # both must exist before anything is changed
 
             for v, bias in terms:
                 self.add_linear(v, lagrange_multiplier[0] * bias)
